@@ -93,6 +93,9 @@ func concRound(tr interface{ Emit(map[string]any) }, round, g, upd, n, gens, siz
 		}
 		for i := 0; i < sz; i++ {
 			s := keySpec{Name: 1 + rng.Intn(size+2), Cls: 1 + rng.Intn(4), Sec: 1 + rng.Intn(nsec)}
+			if rng.Intn(8) == 0 {
+				s.Name = emptyName // a key configured without an id
+			}
 			specs = append(specs, s)
 			if !seenKey[[2]int{s.Cls, s.Sec}] {
 				seenKey[[2]int{s.Cls, s.Sec}] = true
@@ -125,7 +128,7 @@ func concRound(tr interface{ Emit(map[string]any) }, round, g, upd, n, gens, siz
 			lr := rand.New(rand.NewSource(seed*7907 + int64(gi)))
 			buf := make([]cev, 0, 3*n+8)
 			cl := &concList{inner: inner, reg: reg, buf: &buf, g: gi + 1, base: base}
-			auth := service.NewShadowsocksStreamAuthenticator(cl, nil, nil, nil)
+			auth := service.NewShadowsocksStreamAuthenticator(cl, nil, nil, debugLogger(gi%2 == 1)) // odd goroutines: -verbose
 			<-start
 			for i := 0; i < n; i++ {
 				ip := net.IPv4(127, 0, 0, byte(2+lr.Intn(4))).To4()
